@@ -67,7 +67,9 @@ def _h_quant(ctx, m, gi, nan_mode, output_dtype, n_edits, dropna=True):
             for i in range(len(groups) - 1):
                 options.append(("group", i, i + 1))      # discard lower neighbour into the upper one
                 options.append(("group", i + 1, i))      # discard upper neighbour into the lower one
-            if has_nan and nan_in is None:
+            if (has_nan and nan_in is None) or (not has_nan and step == 0):
+                # missing values into an existing group: a missing-value modality of its own, or (documented use) a feature that had
+                # no missing value at fit
                 for i in range(len(groups)):
                     options.append(("group_nan", None, i))
             for i in range(len(groups) - 1):
@@ -93,6 +95,11 @@ def _h_quant(ctx, m, gi, nan_mode, output_dtype, n_edits, dropna=True):
                         desc = f"group(nan into {leaders[b]!r})"
                         d.update_discretizer("f", "group", float("nan"), leaders[b])
                         exp_nan = b
+                        if not has_nan:
+                            has_nan = True
+                            rows = rows + [float("nan")]
+                            X = pd.DataFrame({"f": column(ctx, rows)})
+                            before_lab = before_lab + [None]
                     elif mode == "replace":
                         r = ctx.real(f"r{step}", feature_value=True)
                         if a > 0:
